@@ -4,6 +4,7 @@ package knx
 
 import (
 	"errors"
+	"fmt"
 	"math"
 	"strings"
 	"sync"
@@ -212,4 +213,21 @@ func HarnessSelfTestPool(a []int) {
 	var empty sync.Pool
 	verifAssert("self.pool.nil_without_new", empty.Get() == nil)
 	verifCover("self.pool.end")
+}
+
+func init() {
+	verifHarnesses["HarnessSelfTestErrors"] = HarnessSelfTestErrors
+}
+
+var errSelfSentinel = errors.New("sentinel")
+
+// HarnessSelfTestErrors: fmt.Errorf("%w") / errors.Is / errors.Unwrap model.
+func HarnessSelfTestErrors(a []int) {
+	w1 := fmt.Errorf("outer: %w", errSelfSentinel)
+	w2 := fmt.Errorf("outermost %d: %w", 3, w1)
+	plain := fmt.Errorf("no wrapping: %v", errSelfSentinel)
+	verifAssert("self.errors.is", errors.Is(w1, errSelfSentinel) && errors.Is(w2, errSelfSentinel) && errors.Is(w2, w1))
+	verifAssert("self.errors.is_not", !errors.Is(plain, errSelfSentinel) && !errors.Is(errSelfSentinel, w1) && !errors.Is(nil, errSelfSentinel))
+	verifAssert("self.errors.unwrap", errors.Unwrap(w1) == errSelfSentinel && errors.Unwrap(w2) == w1 && errors.Unwrap(plain) == nil)
+	verifCover("self.errors.end")
 }
